@@ -408,6 +408,9 @@ class ModuleVistor(NodeVisitor):
                     # A module cannot be moved into itself or into one of its own modules,
                     # and a root module or package stays a root.
                     return False
+                if isinstance(ob, model.Module) and not isinstance(current, model.Package):
+                    # Only a package can contain modules.
+                    return False
                 if origin_module.all is None or origin_name not in origin_module.all:
                     self.system.msg(
                         "astbuilder",
